@@ -33,6 +33,7 @@ int ref_getround(void);
 uint32_t ref_get_mxcsr(void);
 void ref_set_mxcsr(uint32_t v);
 uint32_t ref_get_x87cw(void);
+void ref_set_x87cw(uint32_t v);
 int ref_fp_ilogb0(void); int ref_fp_ilogbnan(void);
 int ref_fp_const(int which);   // 0 FP_NAN 1 FP_INFINITE 2 FP_ZERO 3 FP_SUBNORMAL 4 FP_NORMAL
 #ifdef __cplusplus
